@@ -29,7 +29,7 @@ def units(tier):
     us = [("FAULT2", i) for i in range(len(fault_docs()) if tier == "thorough" else 4)]
     us += [("FAULT1", i) for i in range(len(fault_docs()))]
     us += [("API", i) for i in range(4)]
-    us += S.doc_units(["S1", "S2", "S4"], tier)
+    us += S.doc_units(["S1", "S2", "S4", "S5"], tier)
     if tier == "thorough":
         us += S.doc_units(["S3"], "quick")
     return us
@@ -212,6 +212,8 @@ def faults_for(otype, full=True):
         kinds = {a.kind for a in s.alts}
         if kinds <= {"enum"} or (kinds <= {"enum", "boolean"}):
             out.append(("enum_miss", s.key, "zzz"))
+        if kinds == {"integer"}:
+            out.append(("whole_float_for_integer", s.key, 7.0))
         if kinds <= {"number", "integer"}:
             for a in s.alts:
                 sc = a.schema
@@ -233,6 +235,7 @@ def faults_for(otype, full=True):
                 out.append(("list_item_range", s.key, [it["minimum"] - 1] + base[1:]))
             if s.alts[0].integer:
                 out.append(("list_item_float", s.key, [10.5] + base[1:]))
+                out.append(("list_item_whole_float", s.key, [10.0] + base[1:]))
         if kinds == {"boolean"}:
             out.append(("wrong_type", s.key, "abc"))
     for s in V.slots(otype):
